@@ -108,6 +108,7 @@ Record site := mkSite { s_func : string; s_arm : string; s_ext : ext; s_vtype : 
 Definition FO := "*descriptorpb.FieldOptions".
 Definition bf := "buildField".
 Definition bp := "buildProperty".
+Definition st_map_val      := mkSite bp "*schema_j5pb.Field_Map" XValidate "*validate.FieldConstraints" FO.
 Definition st_array_ext    := mkSite bp "*schema_j5pb.Field_Array" XField "*ext_j5pb.FieldOptions" FO.
 Definition st_array_val    := mkSite bp "*schema_j5pb.Field_Array" XValidate "*validate.FieldConstraints" FO.
 Definition st_required     := mkSite bp "" XValidate "*validate.FieldConstraints" FO.
@@ -152,7 +153,7 @@ Definition st_method_listreq := mkSite "conversionVisitor.visitServiceMethodNode
 (* the model's call-site table, in source order (compared with SetExtGen.sites) *)
 Definition model_sites : list site :=
   [ st_topic_service; st_object_psm; st_object_msg; st_oneof_msg; st_enum_info; st_enum_value;
-    st_array_ext; st_array_val; st_required;
+    st_map_val; st_array_ext; st_array_val; st_required;
     st_object_rules; st_oneof_rules; st_oneof_list; st_enum_val; st_enum_list;
     st_bool_rules; st_bool_list; st_bytes_rules; st_date_rules; st_date_list; st_dec_rules; st_dec_list;
     st_float_list; st_float_list; st_int_rules; st_int_list; st_int_list; st_int_list; st_int_list;
@@ -201,7 +202,7 @@ Inductive fty :=
 Inductive shape :=
 | Plain (t : fty)
 | Array (items : option fty) (ext : option bool) (rules : bool)  (* ext: Some b = Ext present, b = single_form set *)
-| Map (items : option fty).
+| Map (items : option fty) (rules : bool).
 
 Record prop := mkProp { p_schema_nil : bool; p_shape : shape; p_required : bool; p_optional : bool }.
 
@@ -449,9 +450,13 @@ Definition build_property (p : prop) : M fdesc :=
   if p_schema_nil p then fail "missing schema"
   else
     d <- match p_shape p with
-         | Map None => fail "missing map item schema"
-         | Map (Some it) =>
-             fresh ;;; build_field it ;;; to_map_field ;;; ret (PMessage, NMapEntry, true)
+         | Map None _ => fail "missing map item schema"
+         | Map (Some it) rules =>
+             fresh ;;; build_field it ;;; to_map_field ;;;
+             (* the value's validation rules and the map rules go to (buf.validate.field).map on the map field *)
+             v <- (fun s => Ok (mem_ext XValidate (vopts s), s)) ;;
+             when (v || rules) (setext st_map_val ;;; ensure IBufValidate) ;;;
+             ret (PMessage, NMapEntry, true)
          | Array None _ _ => fail "missing array items"
          | Array (Some it) ext rules =>
              fresh ;;;
@@ -543,18 +548,18 @@ Definition in_language (p : prop) : bool :=
   && match p_shape p with
      | Plain t => fty_in_language t && negb (p_optional p && primary_key_shape (p_shape p))
      | Array (Some t) _ _ => fty_in_language t && negb (p_optional p && primary_key_shape (p_shape p))
-     | Map (Some t) => fty_in_language t
+     | Map (Some t) _ => fty_in_language t
      | _ => false
      end.
 (* the parts of the language the converter is known not to accept (recorded findings) *)
 Definition uses_float_rules (p : prop) : bool :=
   match p_shape p with
-  | Plain (TFloat _ true _) | Array (Some (TFloat _ true _)) _ _ | Map (Some (TFloat _ true _)) => true
+  | Plain (TFloat _ true _) | Array (Some (TFloat _ true _)) _ _ | Map (Some (TFloat _ true _)) _ => true
   | _ => false
   end.
 (* key list rules with the informal format: "unknown key format" *)
 Definition uses_informal_key_listrules (p : prop) : bool :=
   match p_shape p with
-  | Plain (TKey _ _ KInformal true) | Array (Some (TKey _ _ KInformal true)) _ _ | Map (Some (TKey _ _ KInformal true)) => true
+  | Plain (TKey _ _ KInformal true) | Array (Some (TKey _ _ KInformal true)) _ _ | Map (Some (TKey _ _ KInformal true)) _ => true
   | _ => false
   end.
